@@ -341,7 +341,7 @@ class n0list(n0list_):
                             f"{self_name}[{i}]",
                             f"{other_name}[{i}]",
                             f"{prefix}[{i}]",
-                            one_of_list_compare=self.direct_compare,
+                            one_of_list_compare=n0list.direct_compare,
                             composite_key=composite_key, compare_only=compare_only,
                             # Not used in real, just for compatibility
                             exclude_xpaths=exclude_xpaths, transform=transform,
@@ -558,7 +558,7 @@ class n0list(n0list_):
                                 f"{self_name}[{self_i}]",
                                 f"{other_name}[{other_i}]",
                                 f"{prefix}[{self_i}]" + (f"<>[{other_i}]" if self_i != other_i else ""),
-                                one_of_list_compare=self.compare,
+                                one_of_list_compare=n0list.compare,
                                 composite_key=composite_key, compare_only=compare_only,
                                 exclude_xpaths=exclude_xpaths, transform=transform,
                             )
